@@ -212,6 +212,7 @@ func Build(filename string, src []byte, roots []string, seed int64, k Knobs) (b 
 		f.Add(it)
 		b.Items = append(b.Items, it)
 	}
+	t.Finish()
 	return b
 }
 
